@@ -968,9 +968,13 @@ where
 		}
 	};
 
+	// Hand the result to the shutdown watcher first and wait until it has gone (it records the
+	// disconnect cause and then drops its receiver): a caller that finds the front-end channel
+	// closed must be able to read the cause.
+	let _ = close_tx.send(res).await;
+	close_tx.closed().await;
 	from_frontend.close();
 	let _ = sender.close().await;
-	let _ = close_tx.send(res).await;
 }
 
 struct ReadTaskParams<R: TransportReceiverT, S> {
